@@ -23,7 +23,18 @@
 (*       registerConnection: slot free -> registered, read-loop and        *)
 (*       keepalive threads start, OnPeerConnected sends the full table;    *)
 (*       slot taken -> the new connection is closed (rejected duplicate)   *)
-(*   KaTimeout(x, l)    keepalive thread: conn.Close(); handleDisconnect   *)
+(*       With SplitRegister the duplicate check (RegCheck, part of the two *)
+(*       actions above) and the insertion (RegInsert) are separate         *)
+(*       critical sections; the ideal design decides again under the lock  *)
+(*       that protects the insertion.                                      *)
+(*   KaBegin(x, l)      keepalive thread: the timer fired, the connection  *)
+(*                      is still connected, the iteration goes on to its   *)
+(*                      timeout check / keepalive write (which can be      *)
+(*                      stuck on a dead link for a long time)              *)
+(*   KaFail(x, l)       ... the check / write fails:                       *)
+(*                      conn.Close(); handleDisconnect(conn)               *)
+(*   KaOk(x, l)         ... the write succeeds: next iteration (the loop   *)
+(*                      ends if the connection was closed meanwhile)       *)
 (*   ReadTeardown(x,l)  read-loop thread: its read failed (it is parked at *)
 (*                      the hook point peer.read.disconnect, after its own *)
 (*                      conn.Close()), now it runs handleDisconnect        *)
@@ -52,6 +63,13 @@
 (*        next to the existing one                                         *)
 (*   DevRejectedStillReads                a rejected duplicate is neither  *)
 (*        closed nor kept from reading                                     *)
+(*   DevKeepaliveDisconnectsByIdentity    the keepalive thread's failure   *)
+(*        path calls Manager.Disconnect(identity): it unregisters and      *)
+(*        closes whatever connection is registered for that identity       *)
+(*   DevRegisterCheckThenAct              (SplitRegister) the insertion    *)
+(*        trusts the earlier duplicate check: two registrations that both  *)
+(*        saw a free slot both insert; the displaced connection stays      *)
+(*        live, unregistered and reading                                   *)
 (***************************************************************************)
 EXTENDS Naturals, Sequences, FiniteSets, TLC, Json
 
@@ -60,31 +78,34 @@ CONSTANTS MaxLink,   \* connection generations
           MaxApi,    \* Manager.Disconnect calls
           MaxRelay,  \* streams opened through a
           KaOf,      \* agents whose keepalive thread may declare a connection dead
+          MaxKa,     \* keepalive iterations that get as far as the check / write while the schedule goes on
+          SplitRegister, \* TRUE: duplicate check and insertion of registerConnection are separate steps
           Dev, Emit
 
 Agent == {"a", "b"}
 Other(x) == IF x = "a" THEN "b" ELSE "a"
 Links == 1..MaxLink
 DevNames == {"DevCleanupByIdentityOnStaleCallback", "DevTeardownDeregistersByIdentity",
-             "DevRegisterReplaces", "DevRejectedStillReads"}
-ASSUME Dev \subseteq DevNames /\ KaOf \subseteq Agent
+             "DevRegisterReplaces", "DevRejectedStillReads", "DevKeepaliveDisconnectsByIdentity",
+             "DevRegisterCheckThenAct"}
+ASSUME Dev \subseteq DevNames /\ KaOf \subseteq Agent /\ SplitRegister \in BOOLEAN
 
 VARIABLES nl,       \* links dialed so far
           dialer,   \* [Links -> {"-","a","b"}]
           hs,       \* [Links -> {"none","hello","ack","done","failed"}]  handshake frame in flight / outcome at the dialer
           alive,    \* [Links -> BOOLEAN]   neither end has closed the link
           reg,      \* [Agent -> SUBSET Links]   Manager.peers[identity of the other]
-          st,       \* [Agent -> [Links -> {"none","up","rej"}]]  what registerConnection decided
+          st,       \* [Agent -> [Links -> {"none","free","dup","up","rej"}]]  registerConnection: check result / decision
           rd,       \* [Agent -> [Links -> {"none","run","gate","done"}]]   read-loop thread
-          ka,       \* [Agent -> [Links -> {"none","run","done"}]]          keepalive thread
+          ka,       \* [Agent -> [Links -> {"none","run","busy","done"}]]   keepalive thread
           advq,     \* [Links -> Nat]  announcements of b in flight towards a
           rt,       \* 0 or the generation through which a learned b's route
           rl,       \* 0 or the generation over which a relays a stream to b
-          nann, napi, nrel,
+          nann, napi, nrel, nka,
           last
 
-vars == <<nl, dialer, hs, alive, reg, st, rd, ka, advq, rt, rl, nann, napi, nrel, last>>
-view == <<nl, dialer, hs, alive, reg, st, rd, ka, advq, rt, rl, nann, napi, nrel>>
+vars == <<nl, dialer, hs, alive, reg, st, rd, ka, advq, rt, rl, nann, napi, nrel, nka, last>>
+view == <<nl, dialer, hs, alive, reg, st, rd, ka, advq, rt, rl, nann, napi, nrel, nka>>
 
 Init ==
   /\ nl = 0
@@ -97,12 +118,13 @@ Init ==
   /\ ka = [x \in Agent |-> [l \in Links |-> "none"]]
   /\ advq = [l \in Links |-> 0]
   /\ rt = 0 /\ rl = 0
-  /\ nann = 0 /\ napi = 0 /\ nrel = 0
+  /\ nann = 0 /\ napi = 0 /\ nrel = 0 /\ nka = 0
   /\ last = [act |-> "Init"]
 
 (* ---- closing a link ------------------------------------------------------*)
 RdKill(r, l) == [x \in Agent |-> [r[x] EXCEPT ![l] = IF @ = "run" THEN "gate" ELSE @]]
-KaKill(k, l) == [x \in Agent |-> [k[x] EXCEPT ![l] = IF @ = "run" THEN "done" ELSE @]]
+KaKill(k, l) == [x \in Agent |-> [k[x] EXCEPT ![l] = IF @ = "run" THEN "done" ELSE @]]   \* a thread inside its
+                                                           \* check / write ("busy") only notices at its next iteration
 HsKill(h, l) == [h EXCEPT ![l] = IF @ \in {"hello", "ack"} THEN "failed" ELSE @]
 
 (* ---- handleDisconnect + agent callback ------------------------------------*)
@@ -112,28 +134,50 @@ RegAfterTeardown(x, l) ==
 Cleans(x, l) == x = "a" /\ (~Stale(x, l) \/ "DevCleanupByIdentityOnStaleCallback" \in Dev)
 
 (* ---- registerConnection ---------------------------------------------------*)
-\* y finished the handshake on l; newHs is the handshake status when y keeps the connection
-Register(y, l, newHs) ==
-  IF reg[y] = {} \/ "DevRegisterReplaces" \in Dev THEN
-    /\ reg' = [reg EXCEPT ![y] = @ \cup {l}]
+\* the decision of registerConnection for connection l at y; keep = the slot is (believed to be) free;
+\* h = handshake status function to continue with
+Decide(y, l, keep, h) ==
+  IF keep THEN
+    /\ reg' = IF "DevRegisterReplaces" \in Dev THEN [reg EXCEPT ![y] = @ \cup {l}] ELSE [reg EXCEPT ![y] = {l}]
     /\ st' = [st EXCEPT ![y][l] = "up"]
     /\ rd' = [rd EXCEPT ![y][l] = "run"]
     /\ ka' = [ka EXCEPT ![y][l] = "run"]
     /\ advq' = IF y = "b" THEN [advq EXCEPT ![l] = @ + 1] ELSE advq   \* OnPeerConnected: SendFullTable
-    /\ hs' = [hs EXCEPT ![l] = newHs]
+    /\ hs' = h
     /\ UNCHANGED alive
   ELSE IF "DevRejectedStillReads" \in Dev THEN
     /\ st' = [st EXCEPT ![y][l] = "rej"]
     /\ rd' = [rd EXCEPT ![y][l] = "run"]
-    /\ hs' = [hs EXCEPT ![l] = newHs]
+    /\ hs' = h
     /\ UNCHANGED <<reg, ka, advq, alive>>
   ELSE
     /\ st' = [st EXCEPT ![y][l] = "rej"]          \* conn.Close(): no threads, the link dies
     /\ alive' = [alive EXCEPT ![l] = FALSE]
     /\ rd' = RdKill(rd, l)
     /\ ka' = KaKill(ka, l)
-    /\ hs' = HsKill([hs EXCEPT ![l] = newHs], l)
+    /\ hs' = HsKill(h, l)
     /\ UNCHANGED <<reg, advq>>
+
+SlotFree(y) == reg[y] = {} \/ "DevRegisterReplaces" \in Dev
+
+\* y finished the handshake on l (newHs = handshake status from now on) and enters registerConnection
+Register(y, l, newHs) ==
+  IF SplitRegister THEN
+    /\ st' = [st EXCEPT ![y][l] = IF SlotFree(y) THEN "free" ELSE "dup"]      \* RegCheck
+    /\ hs' = [hs EXCEPT ![l] = newHs]
+    /\ UNCHANGED <<reg, rd, ka, advq, alive>>
+  ELSE
+    Decide(y, l, SlotFree(y), [hs EXCEPT ![l] = newHs])
+
+\* second critical section of registerConnection (only with SplitRegister)
+RegInsert(y, l) ==
+  /\ SplitRegister
+  /\ st[y][l] \in {"free", "dup"}
+  /\ LET keep == IF "DevRegisterCheckThenAct" \in Dev THEN st[y][l] = "free"
+                 ELSE st[y][l] = "free" /\ SlotFree(y)          \* decided again under the write lock
+     IN /\ Decide(y, l, keep, hs)
+        /\ last' = [act |-> "RegInsert", x |-> y, l |-> l, kept |-> keep]
+  /\ UNCHANGED <<nl, dialer, rt, rl, nann, napi, nrel, nka>>
 
 Dial(x) ==
   /\ nl < MaxLink
@@ -144,44 +188,68 @@ Dial(x) ==
      /\ hs' = [hs EXCEPT ![l] = "hello"]
      /\ alive' = [alive EXCEPT ![l] = TRUE]
      /\ last' = [act |-> "Dial", x |-> x, l |-> l]
-  /\ UNCHANGED <<reg, st, rd, ka, advq, rt, rl, nann, napi, nrel>>
+  /\ UNCHANGED <<reg, st, rd, ka, advq, rt, rl, nann, napi, nrel, nka>>
 
 AcceptHello(l) ==
   /\ hs[l] = "hello"
   /\ LET y == Other(dialer[l]) IN
      /\ Register(y, l, "ack")
      /\ last' = [act |-> "AcceptHello", x |-> y, l |-> l, kept |-> (reg[y] = {} \/ "DevRegisterReplaces" \in Dev)]
-  /\ UNCHANGED <<nl, dialer, rt, rl, nann, napi, nrel>>
+  /\ UNCHANGED <<nl, dialer, rt, rl, nann, napi, nrel, nka>>
 
 DeliverAck(l) ==
   /\ hs[l] = "ack"
   /\ LET x == dialer[l] IN
      /\ Register(x, l, "done")
      /\ last' = [act |-> "DeliverAck", x |-> x, l |-> l, kept |-> (reg[x] = {} \/ "DevRegisterReplaces" \in Dev)]
-  /\ UNCHANGED <<nl, dialer, rt, rl, nann, napi, nrel>>
+  /\ UNCHANGED <<nl, dialer, rt, rl, nann, napi, nrel, nka>>
 
 TeardownVars(x, l) ==
   /\ reg' = RegAfterTeardown(x, l)
   /\ rt' = IF Cleans(x, l) THEN 0 ELSE rt
   /\ rl' = IF Cleans(x, l) THEN 0 ELSE rl
 
-KaTimeout(x, l) ==
+KaBegin(x, l) ==
   /\ x \in KaOf
+  /\ nka < MaxKa
   /\ ka[x][l] = "run"
-  /\ alive' = [alive EXCEPT ![l] = FALSE]
-  /\ rd' = RdKill(rd, l)
-  /\ ka' = KaKill(ka, l)
-  /\ hs' = HsKill(hs, l)
-  /\ TeardownVars(x, l)
-  /\ last' = [act |-> "KaTimeout", x |-> x, l |-> l, stale |-> Stale(x, l)]
-  /\ UNCHANGED <<nl, dialer, st, advq, nann, napi, nrel>>
+  /\ ka' = [ka EXCEPT ![x][l] = "busy"]
+  /\ nka' = nka + 1
+  /\ last' = [act |-> "KaBegin", x |-> x, l |-> l]
+  /\ UNCHANGED <<nl, dialer, hs, alive, reg, st, rd, advq, rt, rl, nann, napi, nrel>>
+
+KaOk(x, l) ==
+  /\ ka[x][l] = "busy"
+  /\ ka' = [ka EXCEPT ![x][l] = IF rd[x][l] = "run" THEN "run" ELSE "done"]   \* closed meanwhile: conn.Done() ends the loop
+  /\ last' = [act |-> "KaOk", x |-> x, l |-> l]
+  /\ UNCHANGED <<nl, dialer, hs, alive, reg, st, rd, advq, rt, rl, nann, napi, nrel, nka>>
+
+KaFail(x, l) ==
+  /\ ka[x][l] = "busy"
+  /\ IF "DevKeepaliveDisconnectsByIdentity" \in Dev THEN
+       \* Manager.Disconnect(identity): whatever is registered is unregistered and closed; no callback from here
+       /\ reg' = [reg EXCEPT ![x] = {}]
+       /\ alive' = [k \in Links |-> IF k \in reg[x] THEN FALSE ELSE alive[k]]
+       /\ rd' = [y \in Agent |-> [k \in Links |-> IF k \in reg[x] /\ rd[y][k] = "run" THEN "gate" ELSE rd[y][k]]]
+       /\ ka' = [y \in Agent |-> [k \in Links |-> IF y = x /\ k = l THEN "done"
+                                                  ELSE IF k \in reg[x] /\ ka[y][k] = "run" THEN "done" ELSE ka[y][k]]]
+       /\ hs' = [k \in Links |-> IF k \in reg[x] /\ hs[k] \in {"hello", "ack"} THEN "failed" ELSE hs[k]]
+       /\ UNCHANGED <<rt, rl>>
+     ELSE
+       /\ alive' = [alive EXCEPT ![l] = FALSE]
+       /\ rd' = RdKill(rd, l)
+       /\ ka' = [KaKill(ka, l) EXCEPT ![x][l] = "done"]
+       /\ hs' = HsKill(hs, l)
+       /\ TeardownVars(x, l)
+  /\ last' = [act |-> "KaFail", x |-> x, l |-> l, stale |-> Stale(x, l)]
+  /\ UNCHANGED <<nl, dialer, st, advq, nann, napi, nrel, nka>>
 
 ReadTeardown(x, l) ==
   /\ rd[x][l] = "gate"
   /\ rd' = [rd EXCEPT ![x][l] = "done"]
   /\ TeardownVars(x, l)
   /\ last' = [act |-> "ReadTeardown", x |-> x, l |-> l, stale |-> Stale(x, l)]
-  /\ UNCHANGED <<nl, dialer, hs, alive, st, ka, advq, nann, napi, nrel>>
+  /\ UNCHANGED <<nl, dialer, hs, alive, st, ka, advq, nann, napi, nrel, nka>>
 
 ApiDisconnect(x) ==
   /\ napi < MaxApi
@@ -193,16 +261,17 @@ ApiDisconnect(x) ==
        /\ hs' = HsKill(hs, l)
        /\ last' = [act |-> "ApiDisconnect", x |-> x, l |-> l]
   /\ napi' = napi + 1
-  /\ UNCHANGED <<nl, dialer, st, advq, rt, rl, nann, nrel>>
+  /\ UNCHANGED <<nl, dialer, st, advq, rt, rl, nann, nrel, nka>>
 
 Announce ==
   /\ nann < MaxAnn
   /\ \E l \in reg["b"] :
        /\ alive[l]
+       /\ ka["b"][l] # "busy"          \* a stuck keepalive write holds the connection's write lock
        /\ advq' = [advq EXCEPT ![l] = @ + 1]
        /\ last' = [act |-> "Announce", l |-> l]
   /\ nann' = nann + 1
-  /\ UNCHANGED <<nl, dialer, hs, alive, reg, st, rd, ka, rt, rl, napi, nrel>>
+  /\ UNCHANGED <<nl, dialer, hs, alive, reg, st, rd, ka, rt, rl, napi, nrel, nka>>
 
 Learn(l) ==
   /\ advq[l] > 0
@@ -210,29 +279,30 @@ Learn(l) ==
   /\ advq' = [advq EXCEPT ![l] = @ - 1]
   /\ rt' = l
   /\ last' = [act |-> "Learn", l |-> l, registered |-> (l \in reg["a"])]
-  /\ UNCHANGED <<nl, dialer, hs, alive, reg, st, rd, ka, rl, nann, napi, nrel>>
+  /\ UNCHANGED <<nl, dialer, hs, alive, reg, st, rd, ka, rl, nann, napi, nrel, nka>>
 
 DropDead(l) ==
   /\ advq[l] > 0
   /\ ~alive[l]
   /\ advq' = [advq EXCEPT ![l] = 0]
   /\ last' = [act |-> "DropDead", l |-> l, n |-> advq[l]]
-  /\ UNCHANGED <<nl, dialer, hs, alive, reg, st, rd, ka, rt, rl, nann, napi, nrel>>
+  /\ UNCHANGED <<nl, dialer, hs, alive, reg, st, rd, ka, rt, rl, nann, napi, nrel, nka>>
 
 RelayOpen ==
   /\ nrel < MaxRelay
   /\ rl = 0
   /\ \E l \in Links :
        /\ reg["a"] = {l} /\ reg["b"] = {l} /\ alive[l] /\ advq[l] = 0
+       /\ ka["a"][l] # "busy" /\ ka["b"][l] # "busy"
        /\ rl' = l
        /\ last' = [act |-> "RelayOpen", l |-> l]
   /\ nrel' = nrel + 1
-  /\ UNCHANGED <<nl, dialer, hs, alive, reg, st, rd, ka, advq, rt, nann, napi>>
+  /\ UNCHANGED <<nl, dialer, hs, alive, reg, st, rd, ka, advq, rt, nann, napi, nka>>
 
 Next ==
   \/ \E x \in Agent : Dial(x) \/ ApiDisconnect(x)
   \/ \E l \in Links : AcceptHello(l) \/ DeliverAck(l) \/ Learn(l) \/ DropDead(l)
-  \/ \E x \in Agent, l \in Links : KaTimeout(x, l) \/ ReadTeardown(x, l)
+  \/ \E x \in Agent, l \in Links : KaBegin(x, l) \/ KaOk(x, l) \/ KaFail(x, l) \/ ReadTeardown(x, l) \/ RegInsert(x, l)
   \/ Announce \/ RelayOpen
 
 Spec == Init /\ [][Next]_vars
@@ -247,24 +317,26 @@ TypeOK ==
 AtMostOneRegistered == \A x \in Agent : Cardinality(reg[x]) <= 1
 \* only connections that registerConnection kept ever run threads
 ThreadsOnlyWhenKept == \A x \in Agent, l \in Links : rd[x][l] # "none" => st[x][l] = "up"
+\* ... and a connection whose threads run (it is open and reading) is the registered one: no second live connection
+RunningImpliesRegistered == \A x \in Agent, l \in Links : rd[x][l] = "run" => l \in reg[x]
 \* C32(2): a rejected duplicate never delivers frames
 RejectedDeliversNothing == [][last'.act = "Learn" => st["a"][last'.l] = "up"]_vars
 \* C32(3): tearing down a connection that is not the registered one removes nothing of the registered one
 StaleTeardownHarmless ==
-  [][(last'.act \in {"KaTimeout", "ReadTeardown"} /\ reg[last'.x] # {last'.l}) =>
+  [][(last'.act \in {"KaFail", "ReadTeardown"} /\ reg[last'.x] # {last'.l}) =>
         /\ reg'[last'.x] = reg[last'.x]
         /\ (last'.x = "a" /\ rt \in reg["a"]) => rt' = rt
         /\ (last'.x = "a" /\ rl \in reg["a"]) => rl' = rl]_vars
 \* what a holds for b was created over a connection a kept
 ItemsFromKept == (rt # 0 => st["a"][rt] = "up") /\ (rl # 0 => st["a"][rl] = "up")
 
-State(n, d, h, al, rg, s, r, k, aq, t, rr, na, np, nr) ==
+State(n, d, h, al, rg, s, r, k, aq, t, rr, na, np, nr, nk) ==
   [nl |-> n, dialer |-> d, hs |-> h, alive |-> al, reg |-> rg, st |-> s, rd |-> r, ka |-> k, advq |-> aq,
-   rt |-> t, rl |-> rr, nann |-> na, napi |-> np, nrel |-> nr]
+   rt |-> t, rl |-> rr, nann |-> na, napi |-> np, nrel |-> nr, nka |-> nk]
 
 EmitEdge ==
   Emit => PrintT("EDGE " \o ToJson([
-     s |-> State(nl, dialer, hs, alive, reg, st, rd, ka, advq, rt, rl, nann, napi, nrel),
+     s |-> State(nl, dialer, hs, alive, reg, st, rd, ka, advq, rt, rl, nann, napi, nrel, nka),
      a |-> last',
-     t |-> State(nl', dialer', hs', alive', reg', st', rd', ka', advq', rt', rl', nann', napi', nrel')]))
+     t |-> State(nl', dialer', hs', alive', reg', st', rd', ka', advq', rt', rl', nann', napi', nrel', nka')]))
 =============================================================================
